@@ -20,9 +20,32 @@ def main():
         print("cannot create worktree:", a.stdout.decode()[-300:]); return 2
     res = {}
     try:
+        head = sh("git -C /repo rev-parse --short HEAD").stdout.decode().strip()
+        status = {"head": head}
+        demo = os.path.join(d, "demo.py") if os.path.exists(os.path.join(d, "demo.py")) else None
         a = sh("git -C %s apply %s/patch.diff" % (wt, d))
         if a.returncode != 0:
-            print("patch does not apply:", a.stdout.decode()[-300:]); return 2
+            # /repo has moved on (a repair touched the same lines): the change is kept for the record, but is stale
+            status["state"] = "stale: the patch no longer applies to HEAD"
+            json.dump(status, open(os.path.join(d, "status.json"), "w"), indent=1)
+            print(name, "STALE does-not-apply", flush=True)
+            return 0
+        if demo and name.split("-")[1].startswith("m"):
+            env = dict(os.environ, PYTHONPATH=wt, PYTHONDONTWRITEBYTECODE="1")
+            try:
+                r = sh("/venv/bin/python %s %s" % (demo, wt), env=env, cwd=wt, timeout=600)
+                status["demo_patched_rc"] = r.returncode
+            except subprocess.TimeoutExpired:
+                status["demo_patched_rc"] = -9
+            if status["demo_patched_rc"] == 0:
+                # a later repair of /repo made the change harmless (e.g. the roll-back after a failed batch item discards
+                # what the mutant left pending): its own demonstration no longer shows a violation
+                status["state"] = "neutralised: with the current HEAD the demonstration no longer shows a violation"
+                json.dump(status, open(os.path.join(d, "status.json"), "w"), indent=1)
+                print(name, "NEUTRALISED demo-exits-0", flush=True)
+                return 0
+        status["state"] = "live"
+        json.dump(status, open(os.path.join(d, "status.json"), "w"), indent=1)
         for pid in pids:
             t0 = time.time()
             env = dict(os.environ, VERIF_REPO=wt, VERIF_EVIDENCE_DIR="/dev/shm/ev_seed_%s" % name, VERIF_OUT_DIR="/dev/shm/out_seed_%s" % name)
